@@ -6,7 +6,7 @@ no row wider than the declared columns) and on the reported size.
 Names part: spec/Names.tla enumerates all strings over an alphabet holding
 every forbidden character; each is replayed into the three name setters."""
 from harness.common import Run
-from harness.table_engine import run_table_property
+from harness.table_engine import blind_struct_histories, run_table_property, signature
 from harness.tlc import make_cfg, run_tlc
 
 ALPHA_Q = {ord(c) for c in "a1_ '[*:/\\.é"}
@@ -75,5 +75,13 @@ def main(tier: str) -> int:
     ]
     budgets = {"walks": (400, 8), "traces": (300, 12), "edge_sample": 4000} if tier == "quick" else None
     run_table_property(run, tier, verdict_kinds=("struct", "live:size", "fresh:size", "exc", "model"), budgets=budgets)
+    # histories in which nothing is read back between operations except single cache-filling reads
+    total, mism = blind_struct_histories(6000 if tier == "quick" else 80000, 14, seed=run.seed)
+    run.count(total)
+    run.validated(total)
+    run.notes["blind_history_operations"] = total
+    for m in mism:
+        run.klass("blind", m["op"]["op"])
+        run.violation(signature(m), m)
     names_part(run, tier)
     return run.finish()
